@@ -1186,10 +1186,18 @@ except_clauses:
 try_stmt:
 	TRY ':' suite except_clauses
 	{
+		if len($4) == 0 {
+			// try needs at least one except clause or a finally
+			yylex.(*yyLex).SyntaxError("invalid syntax")
+		}
 		$$ = &ast.Try{StmtBase: ast.StmtBase{Pos: $<pos>$}, Body: $3, Handlers: $4}
 	}
 |	TRY ':' suite except_clauses ELSE ':' suite
 	{
+		if len($4) == 0 {
+			// else needs at least one except clause
+			yylex.(*yyLex).SyntaxError("invalid syntax")
+		}
 		$$ = &ast.Try{StmtBase: ast.StmtBase{Pos: $<pos>$}, Body: $3, Handlers: $4, Orelse: $7}
 	}
 |	TRY ':' suite except_clauses FINALLY ':' suite
@@ -1198,6 +1206,10 @@ try_stmt:
 	}
 |	TRY ':' suite except_clauses ELSE ':' suite FINALLY ':' suite
 	{
+		if len($4) == 0 {
+			// else needs at least one except clause
+			yylex.(*yyLex).SyntaxError("invalid syntax")
+		}
 		$$ = &ast.Try{StmtBase: ast.StmtBase{Pos: $<pos>$}, Body: $3, Handlers: $4, Orelse: $7, Finalbody: $10}
 	}
 
